@@ -10,3 +10,4 @@ open LhasaV.Props.C19
 #print axioms selection_spec
 #print axioms listing_of_archive
 #print axioms total_line
+#print axioms os_names_match_source
